@@ -14,9 +14,11 @@
      cf         the configuration, with 0 <= num_rounds < 10^8 and keep >= 1
    A crash is a truncation of the effect sequence; `reachable d` = d is the content of
    the experiment directory after any number of calls each killed at any effect index
-   (or left to complete), starting from an empty directory. *)
+   (or left to complete), starting from any `fresh` directory: no name in it passes the checkpoint
+   filter (near misses such as checkpoint_1 or checkpoint_000000011 are allowed) and it holds no
+   final-evaluation file yet; the empty directory is fresh. *)
 From Coq Require Import ZArith List Bool.
-From FV Require Import Common.PySem Common.PyStr Common.AtomFS gen.Gen_checkpoint
+From FV Require Import Common.PySem Common.PyStr Common.AtomFS gen.Gen_checkpoint gen.Gen_state_io
   Model.C09_Model Proofs.C09_Proofs.
 Import ListNotations.
 Local Open Scope Z_scope.
@@ -32,6 +34,7 @@ Notation reachable := (reachable step init save load tsv cf).
 Notation run := (run step init save load tsv cf).
 Notation history := (history step init save load tsv cf).
 Notation state_at := (state_at step init).
+Notation fresh := (@fresh B).
 
 (* a file visible under a name that passes the checkpoint filter is never torn, at any crash point *)
 Theorem C09_visible_checkpoint_complete : forall d, reachable d ->
@@ -62,9 +65,9 @@ Proof. exact (retention step init save load tsv load_save cf HR Hkeep). Qed.
 (* for every crash sequence (indices beyond the end of a run = restart after completion,
    indices inside the final evaluation included) the last call returns the state of the
    uninterrupted run, evaluates at the same round number, and leaves the same complete tsv files *)
-Theorem C09_resume_equals_uninterrupted : forall ks : list nat, exists ds tr df tr0 df0,
-  history [] ks = Some (ds, tr, df, state_at (c_R cf), c_R cf) /\
-  history [] [] = Some ([], tr0, df0, state_at (c_R cf), c_R cf) /\
+Theorem C09_resume_equals_uninterrupted : forall d0 (ks : list nat), fresh d0 -> exists ds tr df tr0 df0,
+  history d0 ks = Some (ds, tr, df, state_at (c_R cf), c_R cf) /\
+  history d0 [] = Some ([], tr0, df0, state_at (c_R cf), c_R cf) /\
   forall i, (i < c_nev cf)%nat ->
     lookup str_eqb df (tsv_name (Z.of_nat i)) = Some (Whole (tsv (Z.of_nat i) (state_at (c_R cf)) (c_R cf))) /\
     lookup str_eqb df0 (tsv_name (Z.of_nat i)) = lookup str_eqb df (tsv_name (Z.of_nat i)).
@@ -84,9 +87,18 @@ Theorem C09_tsv_absent_torn_or_correct : forall d, reachable d -> forall i c,
 Proof. exact (reachable_tsv_ok step init save load tsv load_save cf HR). Qed.
 
 (* every directory a history passes through is reachable (so the theorems above apply to it) *)
-Theorem C09_history_dirs_reachable : forall ks ds tr df s r,
-  history [] ks = Some (ds, tr, df, s, r) -> Forall reachable ds /\ reachable df.
+Theorem C09_history_dirs_reachable : forall d0 ks ds tr df s r, fresh d0 ->
+  history d0 ks = Some (ds, tr, df, s, r) -> Forall reachable ds /\ reachable df.
 Proof. exact (history_dirs_reachable step init save load tsv cf). Qed.
+
+(* the strict name filter: a file whose name does not pass the filter and is none of the names the
+   experiment itself uses (checkpoint_<8 digits>, its .tmp, <eval>.tsv) is never created, changed,
+   renamed or removed by any run, at any crash point -- from ANY directory *)
+Theorem C09_foreign_files_untouched : forall n d tr s r m,
+  ckpt_path_matches base n = false -> (forall k, n <> checkpoint_path base k) ->
+  (forall k, n <> tmp_path (checkpoint_path base k)) -> (forall i, n <> tsv_name i) ->
+  run d = Some (tr, s, r) -> lookup str_eqb (apply_evs d (firstn m tr)) n = lookup str_eqb d n.
+Proof. exact (fun n d tr s r m H1 H2 H3 H4 => foreign_untouched step init save load tsv cf n d tr s r m (conj H1 (conj H2 (conj H3 H4)))). Qed.
 
 (* from ANY directory in which no checkpoint name is torn (not only reachable ones): the run's
    file-system steps follow the rename discipline of Common/AtomFS.v (a checkpoint name is
@@ -102,6 +114,15 @@ Theorem C09_run_never_tears : forall d tr s r k, run d = Some (tr, s, r) ->
 Proof. exact (run_never_tears step init save load tsv cf). Qed.
 
 End C09.
+
+(* save_state / load_state are plain pickle.dump / pickle.load of the caller's object (recognised on this run,
+   fail-closed): what the hypothesis load_save stands for *)
+Theorem C09_state_io_anchored : save_state_is_plain_pickle = true /\ load_state_is_plain_unpickle = true.
+Proof. exact state_io_anchored. Qed.
+
+(* the empty directory and the harness's directory of near-miss names are fresh *)
+Theorem C09_fresh_examples : @Proofs.C09_Proofs.fresh (list Z) [] /\ @Proofs.C09_Proofs.fresh (list Z) foreign_dir.
+Proof. exact fresh_examples. Qed.
 
 (* the state after R uninterrupted rounds is `iter step R init` *)
 Theorem C09_state_at_is_iter : forall {S} (step : S -> Z -> S) init (n : nat),
@@ -119,7 +140,7 @@ Proof. exact (tmp_then_rename_atomic str_eqb str_eqb_spec). Qed.
    killed inside the write of checkpoint 4 (effect 24), then inside the final evaluation, then after
    completion: same state and round number as the uninterrupted run, which is 5 rounds of toy_step *)
 Example C09_example :
-  let c := fun ks => mkC09 5 2 2 1 2 [3; 1; 4; 1; 5] ks in
+  let c := fun ks => mkC09 5 2 2 1 2 [3; 1; 4; 1; 5] ks true in
   match C09_history (c [24%nat; 40%nat; 99%nat]), C09_history (c []) with
   | Some (ds, _, df, s, r), Some (_, _, df0, s0, r0) =>
       s = s0 /\ r = r0 /\ r = 5 /\ s = iter_step (toy_step [3; 1; 4; 1; 5]) (0, 0) 5 /\
@@ -143,5 +164,8 @@ Print Assumptions C09_tsv_absent_torn_or_correct.
 Print Assumptions C09_history_dirs_reachable.
 Print Assumptions C09_run_follows_rename_discipline.
 Print Assumptions C09_run_never_tears.
+Print Assumptions C09_foreign_files_untouched.
+Print Assumptions C09_state_io_anchored.
+Print Assumptions C09_fresh_examples.
 Print Assumptions C09_state_at_is_iter.
 Print Assumptions C09_tmp_then_rename_atomic.
